@@ -60,8 +60,14 @@ def build(rng, t, k, sh, pos):
                 it = ("attr", it[1], v, [(repr(v) if not isinstance(v, str) else v, it[3][0][1])], it[4])
         main.append(it)
     others = []
-    for kk in [x for x in ("name", "status", "debug", "template", "minscaledenom", "type", "group") if x in props and x != k][:2]:
-        shs2 = [s for s in gen.shapes(props[kk], kk) if s[0] not in ("objlist", "object", "kv", "points")]
+    prefer = [x for x in ("name", "status", "debug", "template", "minscaledenom", "type", "group") if x in props and x != k]
+    # at least two neighbours, so that "middle" really has a keyword on both sides: fall back to any other simple keyword of the type
+    extra = [x for x in sorted(props) if x not in prefer and x != k and not x.startswith("__") and x not in ("include", "config", "points", "pattern", "projection") and x not in gen.BLOCK_TYPES
+             and any(s0[0] in ("enum", "int", "number", "bool", "string", "intlit") for s0 in gen.shapes(props[x], x))]
+    extra += [x for x in sorted(props) if x not in prefer and x not in extra and x != k and x not in gen.BLOCK_TYPES
+              and any(s0[0] == "numlist" for s0 in gen.shapes(props[x], x))]
+    for kk in (prefer + extra)[:2]:
+        shs2 = [s for s in gen.shapes(props[kk], kk) if s[0] not in ("objlist", "object", "kv", "points", "expression", "regex", "binding", "pattern", "?", "array?", "strlist")]
         if shs2:
             bb = gen.Block(t)
             gen.add_item(rng, bb, kk, shs2[0], 0)
@@ -131,7 +137,7 @@ def explore(ctx, scale=1.0):
                 ctx.count(f"cell-shape:{sh[0]}"); ctx.count(f"position:{pos}")
                 if last[0] is not None:
                     step, detail = last[0]
-                    ctx.violation(f"cell:{t}/{k}/{pos}" if step == "parse" else f"cell:{t}/{k}/{step}",
+                    ctx.violation((f"cell:{t}/{k}/{pos}" + (f":{sh[1]}" if sh[0] == "enum" else "")) if step == "parse" else f"cell:{t}/{k}/{step}",
                                   f"{t.upper()} {k.upper()} ({sh[0]}, {pos} keyword): {step} — {detail}", {"type": t, "keyword": k, "shape": sh[0], "position": pos, "text": last[1]})
     # ---------------- nested object types in every parent context ----------------
     for t in gen.object_types():
@@ -179,7 +185,7 @@ def explore(ctx, scale=1.0):
                     ctx.case(("nested-cell", pt, t, k, sh[0], pos), True); ctx.count(f"nested-cell:{pos}")
                     if last[0] is not None:
                         step, detail = last[0]
-                        ctx.violation(f"nested-{pos}:{pt}/{t}/{k}" if step == "parse" else f"nested-cell:{pt}/{t}/{k}/{step}",
+                        ctx.violation((f"nested-{pos}:{pt}/{t}/{k}" + (f":{sh[1]}" if sh[0] == "enum" else "")) if step == "parse" else f"nested-cell:{pt}/{t}/{k}/{step}",
                                       f"{t.upper()} {k.upper()} ({sh[0]}) as {pos} keyword of a {t.upper()} inside {pt.upper()}: {step} — {detail}",
                                       {"parent": pt, "type": t, "keyword": k, "shape": sh[0], "position": pos, "text": last[1]})
     # the inline SYMBOL of a STYLE / CLASS: stored under `symbols`, which the parent schema does not know
